@@ -22,6 +22,9 @@ theories/Model/Expr.vos theories/Model/Expr.vok theories/Model/Expr.required_vos
 theories/Proofs/BVLemmas.vo theories/Proofs/BVLemmas.glob theories/Proofs/BVLemmas.v.beautified theories/Proofs/BVLemmas.required_vo: theories/Proofs/BVLemmas.v theories/Spec/BV.vo
 theories/Proofs/BVLemmas.vio: theories/Proofs/BVLemmas.v theories/Spec/BV.vio
 theories/Proofs/BVLemmas.vos theories/Proofs/BVLemmas.vok theories/Proofs/BVLemmas.required_vos: theories/Proofs/BVLemmas.v theories/Spec/BV.vos
+theories/Proofs/ContextDenotesProofs.vo theories/Proofs/ContextDenotesProofs.glob theories/Proofs/ContextDenotesProofs.v.beautified theories/Proofs/ContextDenotesProofs.required_vo: theories/Proofs/ContextDenotesProofs.v theories/Model/Context.vo theories/Model/ContextOracle.vo theories/Proofs/ContextProofs.vo theories/Proofs/ContextOracleProofs.vo
+theories/Proofs/ContextDenotesProofs.vio: theories/Proofs/ContextDenotesProofs.v theories/Model/Context.vio theories/Model/ContextOracle.vio theories/Proofs/ContextProofs.vio theories/Proofs/ContextOracleProofs.vio
+theories/Proofs/ContextDenotesProofs.vos theories/Proofs/ContextDenotesProofs.vok theories/Proofs/ContextDenotesProofs.required_vos: theories/Proofs/ContextDenotesProofs.v theories/Model/Context.vos theories/Model/ContextOracle.vos theories/Proofs/ContextProofs.vos theories/Proofs/ContextOracleProofs.vos
 theories/Proofs/ContextOracleProofs.vo theories/Proofs/ContextOracleProofs.glob theories/Proofs/ContextOracleProofs.v.beautified theories/Proofs/ContextOracleProofs.required_vo: theories/Proofs/ContextOracleProofs.v theories/Model/Context.vo theories/Model/ContextOracle.vo theories/Proofs/ContextProofs.vo
 theories/Proofs/ContextOracleProofs.vio: theories/Proofs/ContextOracleProofs.v theories/Model/Context.vio theories/Model/ContextOracle.vio theories/Proofs/ContextProofs.vio
 theories/Proofs/ContextOracleProofs.vos theories/Proofs/ContextOracleProofs.vok theories/Proofs/ContextOracleProofs.required_vos: theories/Proofs/ContextOracleProofs.v theories/Model/Context.vos theories/Model/ContextOracle.vos theories/Proofs/ContextProofs.vos
@@ -40,6 +43,6 @@ theories/Proofs/ExprLemmas.vos theories/Proofs/ExprLemmas.vok theories/Proofs/Ex
 theories/Props/C06.vo theories/Props/C06.glob theories/Props/C06.v.beautified theories/Props/C06.required_vo: theories/Props/C06.v theories/Model/EvalImpl.vo theories/Proofs/EvalProofs.vo theories/Proofs/EvalImplProofs.vo
 theories/Props/C06.vio: theories/Props/C06.v theories/Model/EvalImpl.vio theories/Proofs/EvalProofs.vio theories/Proofs/EvalImplProofs.vio
 theories/Props/C06.vos theories/Props/C06.vok theories/Props/C06.required_vos: theories/Props/C06.v theories/Model/EvalImpl.vos theories/Proofs/EvalProofs.vos theories/Proofs/EvalImplProofs.vos
-theories/Props/C12.vo theories/Props/C12.glob theories/Props/C12.v.beautified theories/Props/C12.required_vo: theories/Props/C12.v theories/Model/Context.vo theories/Model/ContextOracle.vo theories/Proofs/ContextProofs.vo theories/Proofs/ContextOracleProofs.vo
-theories/Props/C12.vio: theories/Props/C12.v theories/Model/Context.vio theories/Model/ContextOracle.vio theories/Proofs/ContextProofs.vio theories/Proofs/ContextOracleProofs.vio
-theories/Props/C12.vos theories/Props/C12.vok theories/Props/C12.required_vos: theories/Props/C12.v theories/Model/Context.vos theories/Model/ContextOracle.vos theories/Proofs/ContextProofs.vos theories/Proofs/ContextOracleProofs.vos
+theories/Props/C12.vo theories/Props/C12.glob theories/Props/C12.v.beautified theories/Props/C12.required_vo: theories/Props/C12.v theories/Model/Context.vo theories/Model/ContextOracle.vo theories/Proofs/ContextProofs.vo theories/Proofs/ContextOracleProofs.vo theories/Proofs/ContextDenotesProofs.vo
+theories/Props/C12.vio: theories/Props/C12.v theories/Model/Context.vio theories/Model/ContextOracle.vio theories/Proofs/ContextProofs.vio theories/Proofs/ContextOracleProofs.vio theories/Proofs/ContextDenotesProofs.vio
+theories/Props/C12.vos theories/Props/C12.vok theories/Props/C12.required_vos: theories/Props/C12.v theories/Model/Context.vos theories/Model/ContextOracle.vos theories/Proofs/ContextProofs.vos theories/Proofs/ContextOracleProofs.vos theories/Proofs/ContextDenotesProofs.vos
